@@ -25,6 +25,9 @@ pub enum FontSelectionState {
     Failure,
 }
 
+/// Rows a cursor movement can address in a file buffer (`is_terminal_buffer == false`), which has no screen to clamp to.
+pub const MAX_FILE_BUFFER_HEIGHT: i32 = u16::MAX as i32;
+
 #[derive(Debug, Clone)]
 pub struct TerminalState {
     size: Size,
@@ -193,8 +196,9 @@ impl TerminalState {
                     let first = buf.get_first_visible_line();
                     caret.pos.y = caret.pos.y.clamp(first, first + self.get_height() - 1);
                 } else {
-                    // a file buffer grows downwards without bound, but there is no row above the first one
-                    caret.pos.y = caret.pos.y.max(0);
+                    // a file buffer grows downwards, but a cursor movement reaches no further than the 16-bit row
+                    // numbers of the file formats (SAUCE, XBin, IDF, Tundra); there is no row above the first one
+                    caret.pos.y = caret.pos.y.clamp(0, MAX_FILE_BUFFER_HEIGHT - 1);
                 }
                 caret.pos.x = caret.pos.x.clamp(0, (self.get_width() - 1).max(0));
             }
